@@ -162,6 +162,23 @@ func ReadReusing(data []byte, mode int, t reflect.Type, stopAt int) (res Result)
 	return res
 }
 
+// ReadClosing is Read for a streaming consumer: every record is deep-copied inside the callback and its bank closed
+// at once (the documented way to recycle memory), so later records are decoded into recycled banks.
+func ReadClosing(data []byte, mode int, t reflect.Type) (res Result) {
+	defer func() {
+		if r := recover(); r != nil {
+			res.Panic = r
+			res.Site = panicSite()
+		}
+	}()
+	res.Err = avro.ReadFile(NewReader(data, mode), reflect.New(t).Elem().Interface(), func(val unsafe.Pointer, rb *avro.ResourceBank) error {
+		res.Records = append(res.Records, gv.DeepCopy(reflect.NewAt(t, val).Elem()))
+		rb.Close()
+		return nil
+	})
+	return res
+}
+
 // ReadNested reads data and, from inside the callback for record index at, reads inner completely with a second
 // ReadFile (two readers alive at once, in one goroutine — e.g. a join against a second file). Result is that of the
 // OUTER read; innerN is the number of records the inner read delivered and innerErr its error.
